@@ -31,6 +31,7 @@ import Driver.VerifyBatches
 import Driver.TarFS
 import Driver.ProtoSession
 import Driver.MountHandleAccept
+import Driver.RemoteStores
 
 namespace Driver
 open Desync
@@ -660,6 +661,7 @@ def runLine (l : String) : String :=
     | "chunk.disc" => cmdChunkDisc a
     | "sip" => cmdSip a
     | "bst" => cmdBst a
+    | "s3.store" | "s3.get" | "s3.has" | "sftp.has" | "sftp.store" | "sftp.get" => (Remote.run cmd a).getD "bad-op"
     | "tarfs.mode" | "tarfs.read" | "tarfs.tar" | "tarfs.write" => (TarFSCmd.run cmd a).getD "bad-op"
     | _ => "bad-op"
 
